@@ -83,7 +83,7 @@ func (t *vhostTrie) Match(key string) (*SiteConfig, string) {
 		if branch != nil {
 			break
 		}
-		branch = t.matchHost(h)
+		branch = t.matchHost(strings.TrimSuffix(strings.TrimPrefix(h, "["), "]")) // (keys carry no brackets)
 	}
 	if branch == nil {
 		return nil, ""
@@ -154,6 +154,10 @@ func (t *vhostTrie) splitHostPath(key string) (host, path string) {
 	hostname, _, err := net.SplitHostPort(host)
 	if err == nil {
 		host = hostname
+	} else if len(host) > 2 && host[0] == '[' && host[len(host)-1] == ']' {
+		// an IPv6 literal without a port: SplitHostPort strips the
+		// brackets when there is a port, so they go here as well
+		host = host[1 : len(host)-1]
 	}
 	return
 }
